@@ -235,6 +235,10 @@ class Normalizer:
 
 
 
+def _pure_builtin_call(x):
+    return isinstance(x.func, ast.Name) and x.func.id in ('max', 'min', 'len', 'abs', 'int', 'float', 'bool', 'round', 'sum', 'tuple') and not x.keywords
+
+
 def simple_return(fn):
     """the value a straight-line function returns -- zero or more `local = expr` definitions (each local defined once, no other
     statement kind) followed by `return expr` -- with the locals substituted; None for anything else"""
@@ -252,8 +256,8 @@ def simple_return(fn):
         if not (isinstance(st, ast.Assign) and len(st.targets) == 1 and isinstance(st.targets[0], ast.Name)):
             return None
         nm = st.targets[0].id
-        if nm in defs or nm in params or any(isinstance(x, ast.Call) for x in ast.walk(st.value)):
-            return None         # calls may have effects / must not be duplicated
+        if nm in defs or nm in params or any(isinstance(x, ast.Call) and not _pure_builtin_call(x) for x in ast.walk(st.value)):
+            return None         # calls may have effects / must not be duplicated (max / min / len / abs ... of call-free arguments are values)
         defs[nm] = subst(st.value, defs)
     return subst(body[-1].value, defs)
 
@@ -285,7 +289,8 @@ def _single_defs(fn):
     defs, bad = {}, set()
 
     def add(name, expr):
-        if name in defs:
+        # a second definition by the very same expression (`head, _ = self._q[0]` in the loop and again after it) is the same definition
+        if name in defs and ast.dump(defs[name]) != ast.dump(expr):
             bad.add(name)
         defs[name] = expr
 
